@@ -497,7 +497,7 @@ def judge(what, case, obs, mod):
                 if what == "c15" and op[1] in nested:
                     nontrivial = True
             else:
-                if "smean" in o and not (
+                if "smean" in o and all(math.isfinite(x) for x in (o["v"], o["e"], o["smean"], o["sstd"])) and not (
                         abs(o["v"] - o["smean"]) <= 1e-11 * abs(o["smean"]) + 1e-300 and
                         abs(o["e"] - o["sstd"]) <= 1e-9 * abs(o["sstd"]) + 1e-300):
                     failures.append({"signature": "{}:mc-read-not-the-simulation".format(what),
